@@ -88,10 +88,15 @@ class YajilinClue(Combinator):
         if data[idx] == "..":
             return None
         value = data[idx]
+        if value == "??":
+            return 1, "0."
         DIR_MAP = {"^": 1, "v": 2, "<": 3, ">": 4}
         dir = DIR_MAP[value[0]]
         n = int(value[1:])
-        return 1, f"{dir}{hex(n)[2:]}"
+        if n < 16:
+            return 1, f"{dir}{n:x}"
+        # pzpr format: direction + 5 announces a two-digit (hex) number
+        return 1, f"{dir + 5}{n:02x}"
 
     def deserialize(self, env, data, idx):
         if idx + 1 >= len(data):
@@ -99,9 +104,15 @@ class YajilinClue(Combinator):
         dir = data[idx]
         if dir == "0":
             return 2, ["??"]
+        DIR_MAP = {1: "^", 2: "v", 3: "<", 4: ">"}
+        if dir in "56789":
+            if idx + 2 >= len(data):
+                return None
+            if dir == "5":
+                return 3, ["??"]
+            return 3, [f"{DIR_MAP[int(dir) - 5]}{int(data[idx + 1 : idx + 3], 16)}"]
         if dir not in "1234":
             return None
-        DIR_MAP = {1: "^", 2: "v", 3: "<", 4: ">"}
         n = data[idx + 1]
         if n == ".":
             return 2, ["??"]
